@@ -1,12 +1,16 @@
 package w
 
 import (
+	"bytes"
 	gocontext "context"
 	"encoding/json"
 	"fmt"
+	"runtime"
 	"sort"
+	"strconv"
 	"strings"
 	"sync"
+	"sync/atomic"
 	"testing"
 	"testing/synctest"
 
@@ -31,6 +35,32 @@ type e2SchedArgs struct {
 	GiveUps int         `json:"give_ups"` // how often a caller may give up (cancel its context) in the middle of a push-pull call
 }
 
+// callers whose map iterations run in reversed key order (see verifrt.OrderHook)
+var (
+	reversedCallers sync.Map // goroutine id -> true
+	nReversed       atomic.Int32
+)
+
+func goid() int64 {
+	buf := make([]byte, 64)
+	buf = buf[:runtime.Stack(buf, false)]
+	f := bytes.Fields(buf)
+	id, _ := strconv.ParseInt(string(f[1]), 10, 64)
+	return id
+}
+
+func init() {
+	verifrt.OrderHook = func(site string) (int32, bool) {
+		if nReversed.Load() == 0 {
+			return 0, false
+		}
+		if _, ok := reversedCallers.Load(goid()); ok {
+			return verifrt.Reversed, true
+		}
+		return 0, false
+	}
+}
+
 // rawRequest performs the request of action a without any harness-side waiting (it runs inside an activity).
 func (m *e2Machine) rawRequest(a pt.Action, errs *[]string, mu *sync.Mutex) {
 	c := m.cls[a.R]
@@ -45,6 +75,12 @@ func (m *e2Machine) rawRequest(a pt.Action, errs *[]string, mu *sync.Mutex) {
 			m.rawRequest(sub, errs, mu)
 		}
 	case "sync":
+		if a.K == "rev" { // this call names its datatypes in the opposite order (Go's map order is free to do so)
+			id := goid()
+			reversedCallers.Store(id, true)
+			nReversed.Add(1)
+			defer func() { reversedCallers.Delete(id); nReversed.Add(-1) }()
+		}
 		if err := c.h.C.Sync(); err != nil {
 			note(fmt.Sprintf("c%d sync: %v", a.R, err))
 		}
